@@ -68,6 +68,7 @@ def write_evidence(prop, tier, seed, infos, wall, meta, violations, known_lines)
             "cover_goals_reached": len(covers),
             "exhaustive": False,
             "functions_encoded": funcs,
+            "stubs_reached": sorted({f for i in infos for f in i.get("stubs", [])}),
             "harnesses": [{
                 "name": i["harness"], "status": i["status"], "bounds": i["bounds"],
                 "cbmc": i.get("cbmc_cmd"), "cbmc_wall_s": i.get("cbmc_wall_s"),
